@@ -45,6 +45,8 @@ func c02mkLeaf(typ, cmp, arg string, strLen int) c02leaf {
 		if cmp == "ilike" {
 			l.cs = "B%"
 		}
+	case "all": // an argument every non-null cell satisfies: the whole declared value list / the pattern %
+		l.cs = "%"
 	case "fconst": // float constant against an int column: truncated
 		l.cf = vx.Float64()
 		vx.Assume(l.cf > -1e15 && l.cf < 1e15)
@@ -92,6 +94,12 @@ func (l c02leaf) filter() Filter {
 		}
 	case "ilist":
 		f.Arg = []interface{}{l.cs, l.cs2}
+	case "all":
+		if l.cmp == "in" {
+			f.Arg = append([]string{}, vxEnumVals...)
+		} else {
+			f.Arg = l.cs
+		}
 	case "col":
 		f.Arg = types.ColumnName("b")
 	case "none":
@@ -266,14 +274,23 @@ func (l c02leaf) ref(a, b vxCol, p int) bool {
 			if xn {
 				return false
 			}
+			if l.arg == "all" {
+				return vxEnumRank(x) >= 0
+			}
 			return vx.Or(x == l.cs, x == l.cs2)
 		case "fn1":
 			return vx.UFBool("p1", c02ptr(x, xn))
 		case "fn2":
 			return vx.UFBool("p2", c02ptr(x, xn), c02ptr(b.s[p], b.null[p]))
 		case "like":
+			if l.arg == "all" {
+				return !xn
+			}
 			return !xn && len(x) > 0 && x[0] == 'b'
 		case "ilike":
+			if l.arg == "all" {
+				return !xn
+			}
 			return !xn && len(x) > 0 && (x[0] == 'b' || x[0] == 'B')
 		}
 		y, yn := l.cs, false
